@@ -116,6 +116,43 @@ func (x *Exec) evalBuiltin(s *State, name string, e *ast.CallExpr) Val {
 				}
 			}
 		}
+		if se, ok := unparen(e.Args[0]).(*ast.SliceExpr); ok && !se.Slice3 {
+			// copy(p[lo:hi], src) where p points to an array: a value-level update of the pointed-to array
+			if pt, ok := under(x.typeOf(se.X)).(*types.Pointer); ok {
+				if au, ok := under(pt.Elem()).(*types.Array); ok && len(leavesOf(au.Elem())) == 1 {
+					ls := leavesOf(au.Elem())
+					ptr := x.eval(s, se.X)
+					x.nilCheck(s, ptr.S, e.Pos(), "nil pointer dereference (slice of pointer to array)")
+					cur := s.loadPtr(pt.Elem(), ptr.S)
+					src := x.eval(s, e.Args[1])
+					if src.K == KStr {
+						src = x.stringToBytes(s, src, types.NewSlice(au.Elem()))
+					}
+					if cur.K == KArr && src.K == KSlice {
+						lo, hi := "0", itoa(int(au.Len()))
+						if se.Low != nil {
+							lo = x.eval(s, se.Low).S
+						}
+						if se.High != nil {
+							hi = x.eval(s, se.High).S
+						}
+						g := mkAnd(mkCmp("<=", "0", lo), mkCmp("<=", lo, hi), mkCmp("<=", hi, itoa(int(au.Len()))))
+						x.oblige(s, "slice", e.Pos(), g, "slice bounds in range")
+						s.assume(g)
+						room := mkSub(hi, lo)
+						n := s.define("ncopy", sInt, mkIte(mkCmp("<=", room, src.Len), room, src.Len))
+						name := "M$" + typeKey(au.Elem()) + "$" + ls[0].path
+						srcArr := mkSel(s.heapGet(name, arrSort(arrSort(ls[0].sort))), src.Ref)
+						na := x.eng.fresh("cp.val", arrSort(ls[0].sort))
+						k := "k!c"
+						s.assume(sf("(forall ((%s Int)) (! (= (select %s %s) (ite (and (<= %s %s) (< %s (+ %s %s))) (select %s (+ %s (- %s %s))) (select %s %s))) :pattern ((select %s %s))))",
+							k, na, k, lo, k, k, lo, n, srcArr, src.Off, k, lo, cur.S, k, na, k))
+						s.storePtr(pt.Elem(), ptr.S, Val{K: KArr, T: pt.Elem(), S: na})
+						return Val{K: KInt, T: types.Typ[types.Int], S: n, Lo: big0, Hi: maxLen}
+					}
+				}
+			}
+		}
 		dst := x.eval(s, e.Args[0])
 		src := x.eval(s, e.Args[1])
 		return x.doCopy(s, dst, src, e.Pos())
